@@ -22,11 +22,12 @@ structure Rd where
   lastHbCount : Nat
   ackCount : Nat
   cache : List Change
+  seen : List Nat        -- instances the DDS reader knows (an ALIVE sample was stored); never forgotten
 deriving Repr
 
 def Rd.init (reliable tl : Bool) : Rd :=
   { reliable := reliable, transientLocal := tl, highestRecv := 0, firstAvail := 1, lastAvail := 0, lastHbCount := 0,
-    ackCount := 0, cache := [] }
+    ackCount := 0, cache := [], seen := [] }
 
 structure Ack where
   base : Nat
@@ -60,6 +61,7 @@ inductive Mail
   | write (k : Nat) (v : Int) (ts : Int)
   | dgram (m : Msg)
   | matchR (reliable tl : Bool)
+  | unregister (k : Nat) (ts : Int)
   | api                       -- any other call (take, lookup, entity creation): no effect on the writer
 deriving Repr
 
@@ -69,6 +71,8 @@ structure World where
   annInterval : Int
   lastAnn : Int
   wr : Option St
+  wr0 : Option St        -- an idle second writer `w0` created BEFORE `w` in the same publisher (never matched, never written)
+  lastUnreg : Bool       -- answer of the last unregister_instance call
   rd : Option Rd
   rules : List Rule
   inflight : List Msg
@@ -79,7 +83,7 @@ structure World where
 deriving Repr
 
 def World.init : World :=
-  { now := 0, lastWake := 0, annInterval := 5000000000, lastAnn := 0, wr := none, rd := none, rules := [],
+  { now := 0, lastWake := 0, annInterval := 5000000000, lastAnn := 0, wr := none, wr0 := none, lastUnreg := false, rd := none, rules := [],
     inflight := [], held := [], trace := none, reply := none, purgeFirst := false }
 
 def POKE : Int := 50000000
@@ -94,15 +98,21 @@ def rangeIncl (lo hi : Nat) : List Nat := (List.range (hi + 1 - lo)).map (· + l
 def Rd.missing (r : Rd) : List Nat :=
   (rangeIncl (max r.firstAvail (r.highestRecv + 1)) (max r.lastAvail r.highestRecv)).take 256
 
+/-- DataReaderEntity::add_reader_change: an ALIVE change creates the instance if need be; a NOT_ALIVE change of an
+    instance the reader does not know is an error and is not stored (data_reader_entity.rs:344-359) -/
+def Rd.store (r : Rd) (c : Change) : Rd :=
+  if c.alive then { r with cache := r.cache ++ [c], seen := if r.seen.contains c.key then r.seen else r.seen ++ [c.key] }
+  else if r.seen.contains c.key then { r with cache := r.cache ++ [c] } else r
+
 def rdSub (r : Rd) : Sub → Rd × List Ack
   | .data c =>
     let expected := r.availMax + 1
     if r.reliable then
-      if c.sn = expected then ({ r with highestRecv := max r.highestRecv c.sn, cache := r.cache ++ [c] }, [])
+      if c.sn = expected then ({ r with highestRecv := max r.highestRecv c.sn }.store c, [])
       else (r, [])
     else
       if c.sn ≥ expected then
-        let r1 := { r with highestRecv := max r.highestRecv c.sn, cache := r.cache ++ [c] }
+        let r1 := { r with highestRecv := max r.highestRecv c.sn }.store c
         (if c.sn > expected then { r1 with firstAvail := c.sn } else r1, [])
       else (r, [])
   | .gap start base =>
@@ -171,7 +181,14 @@ def World.absorb (w : World) (s : St) (o : Out) : World :=
 def World.iterate (w : World) (mail : Option Mail) : World :=
   let w := { w with lastWake := w.now }
   -- remove_stale_writer_samples before every mail (repair 5f97ba4 / D34)
-  let w := if mail.isSome then { w with wr := w.wr.map (fun s => removeStale s w.now) } else w
+  let w := if mail.isSome then
+      -- the participant's writers in creation order: w0 (if any), then w
+      (match w.wr0, w.wr with
+       | some a, some b => (match purgeWriters [a, b] w.now with
+         | [a', b'] => { w with wr0 := some a', wr := some b' }
+         | _ => w)
+       | _, _ => { w with wr := w.wr.map (fun s => removeStale s w.now), wr0 := w.wr0.map (fun s => removeStale s w.now) })
+    else w
   let w := match mail with
     | some (.write k v ts) =>
       (match w.wr with
@@ -184,6 +201,12 @@ def World.iterate (w : World) (mail : Option Mail) : World :=
     | some (.dgram (.toReader d)) =>
       (match w.rd with
        | some r => let (r', acks) := rdSubs r d.subs; ({ w with rd := some r' }).sendAll (acks.map Msg.toWriter)
+       | none => w)
+    | some (.unregister k ts) =>
+      (match w.wr with
+       | some s =>
+         let r := unregisterW s k ts w.now
+         ({ w with lastUnreg := r.2.1 }).absorb r.1 { dgrams := r.2.2, reply := none, evicted := [] }
        | none => w)
     | some (.matchR rel tl) =>
       (match w.wr with
